@@ -7,7 +7,7 @@
 // Output: a Coq list `finish_sites : list (string * string * string)` of (function, call, context) where context is
 // the chain of enclosing control statements, outermost first, joined by "/":
 //
-//	range:<last identifier of the ranged expression>   for ... range
+//	range                                                for ... range (the ranged expression is not recorded)
 //	for                                                  other loops
 //	iferr                                                body of `if <x> != nil` (x an identifier / selector ending in err/Error)
 //	if, else                                             body / else branch of any other if
@@ -135,7 +135,7 @@ func walkStmt(fn string, ctx []string, s ast.Stmt) {
 		}
 	case *ast.RangeStmt:
 		walkExpr(fn, ctx, x.X)
-		walkStmt(fn, with("range:"+lastIdent(x.X)), x.Body)
+		walkStmt(fn, with("range"), x.Body)
 	case *ast.ForStmt:
 		walkStmt(fn, ctx, x.Init)
 		walkStmt(fn, with("for"), x.Body)
